@@ -320,7 +320,7 @@ pub fn scenario(seed: u64, opts: &Opts) -> Made {
                 desc.push_str(&format!(" @{t}:vanish{i}"));
             }
             9 if opts.verify => {
-                let timeout = *rng.pick(&[0u64, 1, 1000, 10_000, 3_600_000]);
+                let timeout = *rng.pick(&[0u64, 1, 400, 999, 1000, 1001, 1500, 2750, 10_000, 3_600_000]);
                 w.verify(h, &s.fullname(), timeout);
                 verifies.push((w.now(), s.fullname(), timeout));
                 desc.push_str(&format!(" @{t}:verify{i}({timeout})"));
